@@ -12,6 +12,7 @@ H(c, f, t) == [cell |-> c, from |-> f, to |-> t]
 FPU == {
   M("a", <<H(1,0,1)>>), M("a", <<H(1,1,2)>>), M("a", <<H(1,0,1), H(2,0,1)>>), M("a", <<H(2,0,1), H(1,0,1)>>),
   M("b", <<H(1,0,1)>>), M("d/c", <<H(1,0,1)>>), M("d/c", <<H(1,1,0)>>),
+  M("d/e", <<H(1,1,2), H(2,0,1)>>),                                                       \* partial failure, possibly in a directory that is new
   [M("a", <<H(1,0,1)>>) EXCEPT !.new = "b"],                                             \* differing names, not a rename
   [M("a", <<>>) EXCEPT !.new = "b", !.ren = TRUE],                                       \* pure rename
   [M("a", <<H(1,0,1)>>) EXCEPT !.new = "b", !.ren = TRUE],                               \* rename + change
@@ -58,6 +59,10 @@ CfgList == LET RECURSIVE ToSeq(_)
 Emit == (EmitCases /\ ph >= 2) =>
    PrintT(ToJson([tree0 |-> tree0, series |-> series,
                   prefixTrees |-> [j \in 1..(Len(series) + 1) |-> Run(tree0, series, 1, j - 1, <<>>, FALSE).tree],
+                  outsAfter1 |-> IF Len(series) >= 2 /\ ~Run(tree0, series, 1, 1, <<>>, FALSE).stopped
+                                 THEN [i \in 1..Len(CfgList) |-> [cfg |-> CfgList[i],
+                                        out |-> Outcome(Run(tree0, series, 1, 1, <<>>, FALSE).tree, series, 1, Len(series), CfgList[i])]]
+                                 ELSE <<>>,
                   outs |-> [i \in 1..Len(CfgList) |-> [cfg |-> CfgList[i], out |-> Outcome(tree0, series, 0, Len(series), CfgList[i])]]]))
 \* sanity of the reference itself: k names recorded, exit status, nothing happens on dry runs
 RefSane == ph >= 2 => \A c \in Cfgs : LET o == Outcome(tree0, series, 0, Len(series), c) IN
